@@ -429,6 +429,7 @@ func genCurl() {
 	a.raw("open Iota.Asm in\ndef program : List Iota.Asm.Instr := [\n" + parseAsm(filepath.Join(*repo, "pkg/curl/transform_amd64.s")) + "]\n")
 	a.write()
 }
+
 // checkDistinctArrays establishes the assumption under which transformGeneric is translated (its four array pointers
 // point to pairwise distinct arrays): the only callers of transformGeneric / transform in the package are
 // `transform` of transform_noasm.go, which passes its own four parameters on in order (pinned as noasmBody), and
